@@ -126,6 +126,18 @@ def sizeList : List SObj → Nat
   | x :: xs => 1 + x.size + sizeList xs
 end
 
+mutual
+/-- nesting depth of a spelled tree: the number of arrays and dictionaries open around its
+innermost token (`Obj.depth` of its value when the spelling is valid) -/
+def SObj.depth : SObj → Nat
+  | .arr _ items _ => 1 + sdepthList items
+  | .dict _ kvs _ => 1 + sdepthList kvs
+  | _ => 0
+def sdepthList : List SObj → Nat
+  | [] => 0
+  | x :: xs => max x.depth (sdepthList xs)
+end
+
 /-- one content-stream operation, spelled: operands, then the operator name
 (made of regular characters) with its separator -/
 structure SOp where
